@@ -233,3 +233,59 @@ lb_max_smallest = LowerBound("MaximizeTheSmallestSum", lambda fs: -zmin(fs))
 lb_min_largest = LowerBound("MinimizeTheLargestSum", lambda fs: zmax(fs))
 lb_min_difference = LowerBound("MinimizeTheDifference", lambda fs: zmax(fs) - zmin(fs), uses=[lb_max_smallest, lb_min_largest])
 BOUND_CONTRACTS = [("contracts.objectives", n) for n in ("lb_max_smallest", "lb_min_largest", "lb_min_difference")]
+
+
+# ------------------------------------------------------------------------------------------------ unbounded vector length (T1) for the three extremum objectives
+class ObjectiveValueT1(FunctionContract):
+    """value_to_minimize on a sums vector of ARBITRARY length (symbolic-length sequence of non-negative reals): -min, max, max-min;
+    and the fast path (sums declared sorted) returns the same whenever the vector really is sorted"""
+    tier = "T1"
+    min_obligations = 2
+
+    def __init__(self, cls, kind):
+        self.cls, self.kind = cls, kind
+        self.target = f"prtpy/objectives.py::{cls}.value_to_minimize"
+
+    def shapes(self, level):
+        return [False, True]
+
+    def shape_text(self, flag):
+        return f"any length >= 1, sorted_flag={flag}"
+
+    def make_args(self, it, flag):
+        self._flag = flag
+        arr, n = z3.Const("sums_arr", L.RSeq), z3.Int("sums_n")
+        it.assume(n >= 1)
+        k, a, b = L.fresh("k", L.IntS), L.fresh("a", L.IntS), L.fresh("b", L.IntS)
+        it.assume(z3.ForAll([k], z3.Implies(z3.And(0 <= k, k < n), arr[k] >= 0)))
+        if flag:
+            it.assume(z3.ForAll([a, b], z3.Implies(z3.And(0 <= a, a <= b, b < n), arr[a] <= arr[b])))
+        s = SSeq(arr, z3.IntVal(0), n, "num", "sums")
+        s.frozen = True
+        self._s = s
+        cls = it.get_function(f"prtpy/objectives.py::{self.cls}")
+        return {"__self__": it.instantiate(cls, [], {}), "sums": s, "are_sums_in_ascending_order": flag}
+
+    def post(self, c, kind, res):
+        if kind != "return":
+            return []
+        s, r = self._s, term_of(res)
+        k = L.fresh("k", L.IntS)
+        rng = lambda k: z3.And(s.lo <= k, k < s.hi)
+        is_min = lambda m: z3.And(z3.Exists([k], z3.And(rng(k), s.arr[k] == m)), z3.ForAll([k], z3.Implies(rng(k), s.arr[k] >= m)))
+        is_max = lambda m: z3.And(z3.Exists([k], z3.And(rng(k), s.arr[k] == m)), z3.ForAll([k], z3.Implies(rng(k), s.arr[k] <= m)))
+        if self.kind == "min":
+            goal = is_min(-r)
+        elif self.kind == "max":
+            goal = is_max(r)
+        else:
+            ka, kb = L.fresh("ka", L.IntS), L.fresh("kb", L.IntS)
+            goal = z3.Exists([ka, kb], z3.And(rng(ka), rng(kb), r == s.arr[ka] - s.arr[kb],
+                                              z3.ForAll([k], z3.Implies(rng(k), z3.And(s.arr[k] <= s.arr[ka], s.arr[k] >= s.arr[kb])))))
+        return [("C20:documented-quantity(any-length)", goal)]
+
+
+t1_max_smallest = ObjectiveValueT1("MaximizeTheSmallestSum", "min")
+t1_min_largest = ObjectiveValueT1("MinimizeTheLargestSum", "max")
+t1_min_difference = ObjectiveValueT1("MinimizeTheDifference", "diff")
+VALUE_T1_CONTRACTS = [("contracts.objectives", n) for n in ("t1_max_smallest", "t1_min_largest", "t1_min_difference")]
